@@ -35,6 +35,14 @@ destination), change_scaling, add / remove_extra_dim(s), resize. What the unchan
 group leaves the array where it is - SubFieldViews, slices, records taken EARLIER stay attached and an assignment through
 them reads back in the LasData (and the other way round); the second gives the object a new array - earlier handles stay
 on the old memory. Judged after every step, on every live object.
+STATE SHARED IN THE PROCESS (round 7; Model/SubFieldRec.v `wattr`, `wrun7`): worlds hold objects of BOTH format families at once
+(a second record / LasData of another layout, "mem" with its own "fmt"), and a new step assigns - by attribute and by item -
+a NAME that is no dimension of the object it is assigned to but is one elsewhere (overlap / scanner_channel on formats 0-5, a
+standard dimension the format lacks, a dimension of another live object, a user's name): no point of any object may change,
+and the sub-field assignments made before and after on the objects where the name IS a sub-field must hold on the bytes of
+the record (family_worlds: every pairing of the two families, both orders of the history). The model looks an attribute name
+up in the layout of the assigned object only (wattr). Every failing world / history that is reported is re-run in a NEW python
+process: one that fails only after earlier worlds of the run is reported with such a world as its "before" history.
 Search: the property on the implementation (a Python statement of the expected bytes, no model involved)."""
 import json
 
@@ -48,6 +56,7 @@ ASSUMPTIONS = ["numpy resolves an index expression (slice, mask, index list, int
                "read routes: the model's conversions (wrap_int, as_bool) and reductions (list_max, list_min, list_sum, unique) are numpy's astype / max / min / sum / unique on the unpacked uint8 values; the correspondence compares them on every case, the oracle states them in Python integers",
                "layouts: an extra dimension is only ever named by a name that is not a field of the array of its format (numpy refuses a second field of one name); the extra bytes are 'other dimensions' for the model (it sees the packed columns and the list of field names)",
                "kept handles: which LasData / record operation keeps the array in place (write, rescaling write, update_header, change_scaling) and which rebinds it (add / remove extra dimensions, resize, growth) is read off the unchanged code and pinned in OWorld; X, Y, Z after change_scaling are taken from the implementation (not this property's subject)",
+               "state shared in the process: the worlds of one run share one python process (that is what exposes state kept in the library between objects); a reported failing world is confirmed in a process of its own, with the earlier world it needs as its 'before' history",
                "worlds: which API route gives a view and which gives memory of its own is read off the unchanged code and pinned in OWorld (harness) / the WSlice-WGather-WNew choice of the model command; two mmaps of one file and the file are one memory (MAP_SHARED, Linux page cache); a reader sees the file as it was when it was opened"]
 
 
@@ -237,7 +246,14 @@ def correspond(ctx):
                          "KEPT HANDLES (round 6): per format a LasData with two kept SubFieldViews and a slice, then update_header / write / "
                          "write after header.offsets or .scales changed / a writer with other scaling (also failing) / change_scaling / resize / "
                          "add-remove extra dims, each followed by an assignment through every kept handle and on the LasData; the same "
-                         "steps at random in 12% of the steps of the random worlds")
+                         "steps at random in 12% of the steps of the random worlds. "
+                         "STATE SHARED IN THE PROCESS (round 7): 11 worlds (thorough: 30) pairing an object of format 0-5 with one of 6-10 "
+                         "(LasData / records, layouts with extra dimensions), where overlap / scanner_channel / a user's name are assigned by "
+                         "attribute and by item on the object where they are no dimension before, between and after in-range and out-of-range "
+                         "assignments of those sub-fields on the other object; 30% of the random worlds hold a second object of the other "
+                         "family and 30% of their steps assign a name that is no dimension of its object (a sub-field / dimension of another "
+                         "layout or live object, a user's name); every object's bytes are compared after every step; a reported world is "
+                         "confirmed in a python process of its own")
     sfs = sub_fields()
     vals = values(ctx)
     masks = sorted({m for _, _, _, m in sfs})
@@ -1798,6 +1814,37 @@ def expect_raw(fmt, raw, op):
     return status, new.tobytes()
 
 
+def layout_names(fmt):
+    """every name that addresses points of a record of this layout: the fields of the array, the sub-fields, the old aliases"""
+    tab, _ = fmt_table(fmt)
+    names = set(_dtype(fmt).names) | {nm for nm, _, _ in tab} | {x[0] for x in extras_of(fmt)}
+    return names | {old for nm, old in OLD_NAMES.items() if nm in names}
+
+
+def foreign_names(fmt):
+    """names that are NO dimension of the layout but are one elsewhere: the sub-fields (and composed bytes, and standard
+    dimensions) of the other format family, the old aliases of none, plus a name of the user's"""
+    import laspy.point.dims as dims
+    have = layout_names(fmt)
+    subs, std = [], []
+    for f in range(11):
+        for composed, sfs in dims.COMPOSED_FIELDS[f].items():
+            for sf in sfs:
+                if sf.name not in have and sf.name not in subs:
+                    subs.append(sf.name)
+        for nm in dims.POINT_FORMAT_DIMENSIONS[f]:
+            if nm not in have and nm not in subs and nm not in std:
+                std.append(nm)
+    return subs, std
+
+
+def plain_status(name, path):
+    import laspy.point.dims as dims
+    if path.endswith("setattr"):
+        return "err:EValue" if name in dims.DIMENSIONS_TO_TYPE else "ok"
+    return "err:*"                                               # (refused; with which exception is not this property's subject)
+
+
 class OWorld:
     """the expected state of a world, in bytes (no laspy sub-field code, no Coq model)"""
 
@@ -1859,7 +1906,9 @@ class OWorld:
         s = st["s"]
         file_e = {"buf": 0, "pos": list(range(len(self.bufs[0][1])))}
         if s == "mem":
-            self.fresh(st["id"], self.fmt, self.base, "created " + st["host"], st["host"] == "las")
+            # (round 7: "fmt" / "raw" = an object of ANOTHER layout - the other format family - alive in the same process)
+            self.fresh(st["id"], st.get("fmt", self.fmt), bytes.fromhex(st["raw"]) if "raw" in st else self.base,
+                       "created " + st["host"], st["host"] == "las")
             if st["host"] == "buffer":
                 self.ubufs[st["id"]] = dict(self.objs[st["id"]])
         elif s == "zeros":
@@ -1947,6 +1996,12 @@ class OWorld:
         elif s == "op":
             e = self.objs[st["on"]]
             return self.assign(e, materialise(self.fmt_of(e), self.raw_of(e), st["op"]))
+        elif s == "plain":
+            # round 7: an assignment, by attribute or by item, of a NAME that is not a dimension of this object's layout (a
+            # sub-field of the other format family, a standard dimension the format lacks, a name of the user's): no
+            # point of any object changes. What the unchanged code answers: obj.name = v keeps a python attribute unless the
+            # name is a LAS dimension (refused with ValueError); obj[name] = v is refused with ValueError.
+            return plain_status(st["name"], st["path"])
         elif s == "copyfrom":
             src = self.objs[st["src"]]
             return self.assign(self.objs[st["on"]], {"op": "copy", "sfmt": self.fmt_of(src), "src": self.raw_of(src).hex()})
@@ -2040,7 +2095,7 @@ class AWorld:
                 self.bufs[st["id"]] = (buf, pf)
                 self.objs[st["id"]] = _Obj(laspy.PackedPointRecord.from_buffer(buf, pf), False)
             else:
-                h = Host(st["host"], self.fmt, self.raw)
+                h = Host(st["host"], st.get("fmt", self.fmt), bytes.fromhex(st["raw"]) if "raw" in st else self.raw)
                 self.objs[st["id"]] = _Obj(h.obj, st["host"] == "las")
         elif s == "zeros":
             pf = point_format(self.fmt)
@@ -2151,6 +2206,17 @@ class AWorld:
             self.rec(st["on"]).resize(st["n"])
         elif s == "op":
             return apply_op(self.objs[st["on"]], st["op"])
+        elif s == "plain":
+            o = self.objs[st["on"]]
+            obj, path, value = o.obj, st["path"], mk_value(st["value"])
+            if path.startswith("points_"):
+                obj, path = o.record(), path[len("points_"):]
+            if path == "setattr":
+                setattr(obj, st["name"], value)
+            elif path == "names":
+                obj[[st["name"]]] = value
+            else:
+                obj[st["name"]] = value
         elif s == "copyfrom":
             self.rec(st["on"]).copy_fields_from(self.rec(st["src"]))
         elif s == "vset":
@@ -2242,7 +2308,7 @@ def step_class(st):
             "fancy": "selection", "slice": "slice", "copy": "copy", "wrap": "wrapping", "hold": "keeping a view",
             "frombuf": "from_buffer", "mmap": "mmap", "setpoints": "las.points = record", "drop": "dropping an object",
             "reader": "opening a reader", "seek": "seek", "zeros": "creating a zero record",
-            "touch": "a " + st.get("how", "") + " in between", "extradims": "add/remove_extra_dims", "resize": "resize"}[st["s"]]
+            "touch": "a " + st.get("how", "") + " in between", "plain": "assignment of a name that is no dimension of the object", "extradims": "add/remove_extra_dims", "resize": "resize"}[st["s"]]
 
 
 def plain_tok(sfmt, raw, dfmt):
@@ -2274,7 +2340,8 @@ class WorldModel:
         nfile = len(ow.bufs[0][1])
         L = len(ow.objs[st["of"]]["pos"]) if "of" in st and st["of"] in ow.objs else 0
         if s == "mem":
-            out = [(f"N!{base_fmt(ow.fmt)}!{cols_tok(ow.fmt, ow.base)}", st["id"])]
+            mfmt, mraw = st.get("fmt", ow.fmt), (bytes.fromhex(st["raw"]) if "raw" in st else ow.base)
+            out = [(f"N!{base_fmt(mfmt)}!{cols_tok(mfmt, mraw)}", st["id"])]
             if st["host"] == "buffer":
                 out.append(("L!@!-", "ubuf:" + st["id"]))
             return out
@@ -2308,7 +2375,15 @@ class WorldModel:
             return [(f"L!{ix[st['of']]}!{'/'.join(_ilist(c) for c in chain) or '-'}", st["id"])]
         if s == "op":
             e = ow.objs[st["on"]]
+            o = st["op"]
+            if o["op"] == "seq" and o["path"].endswith("attr") and "delta" not in o:
+                # (round 7) obj.name = vs: the model looks the name up in the layout of THIS object (wattr)
+                nm = OLD_NAMES[o["field"]] if o["path"].endswith("old_attr") else o["field"]
+                return [(f"P!{ix[st['on']]}!{','.join(_dtype(ow.fmt_of(e)).names)}!{nm}!{common.zl(value_list(o['value'])[1])}", None)]
             return [(f"A!{ix[st['on']]}!{model_op(ow.fmt_of(e), len(e['pos']), st['op'])}", None)]
+        if s == "plain" and st["path"].endswith("setattr"):
+            e = ow.objs[st["on"]]
+            return [(f"P!{ix[st['on']]}!{','.join(_dtype(ow.fmt_of(e)).names)}!{st['name']}!{common.zl(value_list(st['value'])[1])}", None)]
         if s == "copyfrom":
             e, src = ow.objs[st["on"]], ow.objs[st["src"]]
             return [(f"F!{ix[st['on']]}!{ix[st['src']]}!{plain_tok(ow.fmt_of(src), ow.raw_of(src), ow.fmt_of(e))}", None)]
@@ -2349,6 +2424,13 @@ def run_world(sess, upto=None):
     """runs a world on the implementation and on the expected state in lockstep.
     Returns (failure or None, trace) - trace = [(step, expected status, {id: (fmt, bytes the implementation holds)}, index of the
     step's last model operation, {id: model object}, the model operations)] for the model comparison."""
+    for earlier in (sess.get("before", []) if upto is None else []):
+        # (round 7) worlds that were run EARLIER in the same process: what they leave behind in the library (class attributes,
+        # module-level caches) is part of the history of this one
+        try:
+            run_world(earlier)
+        except Exception:
+            pass
     fmt, raw = sess["format"], bytes.fromhex(sess["raw"])
     ow, aw = OWorld(fmt, raw), AWorld(fmt, raw, _TMP)
     trace = []
@@ -2360,7 +2442,7 @@ def run_world(sess, upto=None):
         changes another one is kept as the result if no assignment fails later: the expected state is set to what the
         objects hold now and the run goes on (the assignments are judged on the state they start from)."""
         nonlocal secondary
-        if st["s"] in ("op", "copyfrom", "vset") or "outcome" in f["kind"]:
+        if st["s"] in ("op", "copyfrom", "vset", "plain") or "outcome" in f["kind"]:
             return True
         if secondary is None:
             secondary = f
@@ -2455,6 +2537,11 @@ def shrink_world(sess, fail):
     steps = list(sess["steps"])
     i = len(steps) - 2
     while i >= 0:
+        if steps[i]["s"] == "plain":
+            # (what was assigned to ANOTHER object earlier is the history a state shared in the process depends on: a run
+            # in this process cannot tell whether the failure needs it - it stays)
+            i -= 1
+            continue
         cand = steps[:i] + steps[i + 1:]
         try:
             f2, _ = run_world({**sess, "steps": cand})
@@ -2650,6 +2737,38 @@ class WorldGen:
             self.add({"s": "touch", "on": on, "how": how, "k": [rng.choice([1, 3, -2, 5, 0]) for _ in range(3)]})
         return True
 
+    def foreign(self, fmt=None, host=None):
+        """round 7: a record / LasData of ANOTHER layout (by default of the other format family) in the same process"""
+        rng = self.rng
+        if fmt is None:
+            b = base_fmt(self.fmt)
+            fmt = gen_layout(rng, rng.choice([f for f in range(11) if (f >= 6) != (b >= 6)]), 0.2)
+        n = rng.choice([self.n, self.n, 1, 3])
+        oid = self.new_id()
+        self.add({"s": "mem", "id": oid, "host": host or rng.choice(["las", "las", "packed", "scaled"]), "fmt": fmt,
+                  "raw": rand_bytes(rng, n * _itemsize(fmt)).hex()})
+        return oid
+
+    def plain(self, on=None, name=None, path=None):
+        """round 7: obj.name = v / obj[name] = v with a name that is no dimension of obj's layout but is one of another layout
+        (first of all: a sub-field of the other format family; also of a live object of this world), or a user's name"""
+        rng = self.rng
+        a = on or rng.choice(self.records())
+        e = self.ow.objs[a]
+        L, fmt, las = len(e["pos"]), self.ow.fmt_of(e), self.ow.is_las[a]
+        if name is None:
+            subs, std = foreign_names(fmt)
+            have = layout_names(fmt)
+            live = sorted({nm for k in self.records() for nm in layout_names(self.ow.fmt_of(self.ow.objs[k])) if nm not in have} - set(std))
+            pool = (subs * 3 + live * 2 + [rng.choice(std)] + ["user_note"]) if rng.random() < 0.85 else std
+            name = rng.choice(pool)
+        if path is None:
+            path = rng.choice(["setattr", "setattr", "setattr", "setitem", "names"])
+            if las and rng.random() < 0.3:
+                path = "points_" + path
+        self.add({"s": "plain", "on": a, "name": name, "path": path,
+                  "value": gen_value(rng, rng.choice([L, L, 1]), rng.choice([1, 3, 1, 7]), False, rng.random() < 0.2)})
+
     def op(self, on=None):
         rng = self.rng
         views = [k for k, e in self.ow.objs.items() if "field" in e]
@@ -2692,9 +2811,14 @@ def gen_world(rng):
     g.root()
     if rng.random() < 0.4:
         g.root()
+    two = rng.random() < 0.3                                      # (round 7) objects of both format families in this world
+    if two:
+        g.foreign()
     for _ in range(rng.choice([3, 4, 5, 6, 8])):
         r = rng.random()
-        if r < 0.3 and g.records():
+        if two and g.records() and rng.random() < 0.3:
+            g.plain()
+        elif r < 0.3 and g.records():
             g.derive()
         elif r < 0.42 and g.ow.readers:
             g.chunk()
@@ -2752,6 +2876,59 @@ def pattern_worlds(rng):
         for a in list(g.records()):
             g.op(on=a)
         g.add({"s": "read", "id": g.new_id(), "src": "fileobj", "via": "open"})
+        out.append(g.session())
+    return out
+
+
+def family_worlds(rng, thorough=False):
+    """round 7: STATE SHARED IN THE PROCESS between objects of different layouts. Two live objects, one of point format 0-5
+    and one of 6-10 (LasData / records, with and without extra dimensions): a name that is a sub-field in one family and no
+    dimension in the other (overlap, scanner_channel; a sub-field name borne by an extra dimension) is assigned by attribute
+    and by item on the object where it is NOT a dimension (before, between and after), and the sub-fields of that name - and
+    the others - are assigned on the object where they are, through every path: judged on the bytes of every object
+    after every step (not on what obj.name then returns)."""
+    out = []
+    pairs = [(fa, rng.randrange(6, 11)) for fa in range(6)] + [(rng.randrange(6), fb) for fb in range(6, 11)]
+    if thorough:
+        pairs = [(fa, fb) for fa in range(6) for fb in range(6, 11)]
+    for j, (fa, fb) in enumerate(pairs):
+        la, lb = gen_layout(rng, fa, 0.15), gen_layout(rng, fb, 0.15)
+        first_b = j % 2 == 1                                      # which of the two is the world's file format
+        g = WorldGen(rng, lb if first_b else la)
+        hosts = ["las", "las"] if j % 3 else [rng.choice(HOSTS), rng.choice(HOSTS)]
+        g.add({"s": "mem", "id": "o0", "host": hosts[0]})
+        g.k = 1
+        other = g.foreign(la if first_b else lb, hosts[1])
+        a, b = ("o0", other) if not first_b else (other, "o0")    # a: format 0-5, b: format 6-10
+        subs = foreign_names(g.ow.fmt_of(g.ow.objs[a]))[0]        # names that are sub-fields of b only
+        tab, _ = fmt_table(g.ow.fmt_of(g.ow.objs[b]))
+        masks = {nm: m for nm, _, m in tab}
+        nb = len(g.ow.objs[b]["pos"])
+        kindb = "las" if g.ow.is_las[b] else "packed"
+
+        def assign_b(name, bad=False):
+            maxv = masks[name] >> lsb_of(masks[name])
+            path = rng.choice(["setattr", "setattr", "setitem"] + (["points_setattr"] if kindb == "las" else []))
+            n_now = len(g.ow.objs[b]["pos"])
+            g.add({"s": "op", "on": b, "op": {"op": "seq", "field": name, "path": path, "value": gen_value(rng, n_now, maxv, bad, False)}})
+
+        history_first = j % 4 < 2
+        if not history_first:
+            for nm in subs:
+                assign_b(nm)
+        for nm in subs + ["user_note"]:
+            g.plain(on=a, name=nm, path="setattr" if rng.random() < 0.8 or not g.ow.is_las[a] else "points_setattr")
+        for nm in subs:
+            assign_b(nm)
+            assign_b(nm, bad=True)
+        g.op(on=b)
+        for nm in subs[:1]:
+            g.plain(on=a, name=nm, path=rng.choice(["setitem", "setattr"]))
+        if subs:
+            g.plain(on=b, name="user_note", path="setattr")
+            g.plain(on=a, name="user_note", path="setattr")
+        g.op(on=a)
+        g.op(on=b)
         out.append(g.session())
     return out
 
@@ -2822,7 +2999,8 @@ _WORLD_FAILS = []
 
 def correspond_worlds(ctx):
     """worlds on the implementation, on the property (failures kept for `search`) and on the model (wrun)"""
-    worlds = pattern_worlds(ctx.rng) + kept_worlds(ctx.rng, ctx.thorough()) + [gen_world(ctx.rng) for _ in range(ctx.n(450, 8000))]
+    worlds = (family_worlds(ctx.rng, ctx.thorough()) + pattern_worlds(ctx.rng) + kept_worlds(ctx.rng, ctx.thorough())
+              + [gen_world(ctx.rng) for _ in range(ctx.n(450, 8000))])
     kept = []
     _WORLD_FAILS.extend(world_failures(worlds, ctx, kept))
     cmds = ["sf_world " + ";".join(trace[-1][5][:trace[-1][3] + 1] if trace[-1][3] is not None else trace[-1][5])
@@ -2842,7 +3020,7 @@ def correspond_worlds(ctx):
             mstatus, mobjs = mo[mstep].split("@")
             mobjs = mobjs.split("#")
             bad = None
-            if mstatus != exp:
+            if mstatus != exp and st["s"] != "plain":             # (a name that is no dimension: kept or refused is not the model's)
                 bad = (mstatus, exp)
             else:
                 for k, (f, have) in state.items():
@@ -3011,9 +3189,75 @@ def search_sessions(ctx):
     return out
 
 
+def fresh_world(sess, timeout=120):
+    """round 7: the world in a NEW python process (nothing any earlier world left behind in the library): the kind of its
+    failure, None if it passes, "?" if the process could not be run"""
+    import subprocess
+    import sys
+    code = ("import sys, json; d = json.load(sys.stdin); sys.path[:0] = [p for p in d['path'] if p not in sys.path]\n"
+            "from harness.props import c09\n"
+            "try:\n"
+            "    if 'ops' in d['sess']:\n"
+            "        fs = c09.session_after(d['sess'])\n"
+            "        f = fs[0] if fs else None\n"
+            "    else:\n"
+            "        f, _ = c09.run_world(d['sess'])\n"
+            "    print('FRESH ' + json.dumps(f['kind'] if f else None))\n"
+            "except Exception as ex:\n"
+            "    print('FRESH ' + json.dumps('objects: observing the objects raised'))\n")
+    try:
+        r = subprocess.run([sys.executable, "-c", code], input=json.dumps({"path": [p for p in sys.path if p], "sess": sess}),
+                           capture_output=True, text=True, timeout=timeout, cwd=common.VERIF)
+        for line in r.stdout.splitlines():
+            if line.startswith("FRESH "):
+                return json.loads(line[6:])
+    except Exception:
+        pass
+    return "?"
+
+
+def session_after(inp):
+    """a single-record history, after the worlds listed under "before" were run in the same process"""
+    for earlier in inp.get("before", []):
+        try:
+            run_world(earlier)
+        except Exception:
+            pass
+    return session_failures(inp, run_session(inp))
+
+
+def self_contained(fails, budget=10, history=None):
+    """round 7: every failing world that is reported must fail in a process of its own. One that does not (it was found
+    only because of what EARLIER worlds of this run left behind in the library) is given the first self-contained failing
+    world as its "before" history; if it still passes it is reported last, marked."""
+    good, loose = [], []
+    for f in fails:
+        if budget <= 0:
+            loose.append(f)
+            continue
+        budget -= 1
+        k = fresh_world(f["input"])
+        if k == "?" or k is not None:
+            good.append(f)
+            continue
+        loose.append(f)
+    out = list(good)
+    history = history or [g["input"] for g in good if "world" in g["input"]][:1]
+    for f in loose:
+        if history and budget > 0:
+            budget -= 1
+            inp = {**f["input"], "before": history}
+            if fresh_world(inp) not in (None, "?"):
+                out.append({**f, "kind": f["kind"] + " (after other objects were used in the process)", "input": inp})
+                continue
+        out.append({**f, "kind": f["kind"] + " (only after the earlier worlds of this run: state kept in the process)"})
+    return out
+
+
 def search_worlds(ctx):
     """the property across objects on fresh worlds (also when the model could not be built); assignments that break it first"""
-    fails = _WORLD_FAILS + world_failures(pattern_worlds(ctx.rng) + kept_worlds(ctx.rng, ctx.thorough()) + [gen_world(ctx.rng) for _ in range(ctx.n(200, 4000))])
+    fails = _WORLD_FAILS + world_failures(family_worlds(ctx.rng, ctx.thorough()) + pattern_worlds(ctx.rng) + kept_worlds(ctx.rng, ctx.thorough())
+                                          + [gen_world(ctx.rng) for _ in range(ctx.n(200, 4000))])
     fails.sort(key=lambda f: 0 if f["input"]["steps"][-1]["s"] in ("op", "copyfrom", "vset") else 1)
     out, seen = [], set()
     for f in fails:
@@ -3024,7 +3268,7 @@ def search_worlds(ctx):
             except Exception:
                 pass
             out.append(f)
-    return out
+    return self_contained(out) if out else out
 
 
 def search(ctx, seeds):
@@ -3034,12 +3278,17 @@ def search(ctx, seeds):
             seen.add(f["kind"])
             failing.append(f)
     nroute = len(failing)
+    sf = []
     for f in _SESSION_FAILS + search_sessions(ctx):
         if f["kind"] not in seen:
             seen.add(f["kind"])
-            failing.append(f)
-    failing = failing[:6 + nroute]
+            sf.append(f)
     wf = search_worlds(ctx)
+    if sf:
+        # (round 7) a history on one record that fails only because of what the worlds run earlier in this process left behind
+        # in the library is reported with such a world as its "before" history
+        sf = self_contained(sf[:6], budget=8, history=[w["input"] for w in wf if "world" in w["input"] and "before" not in w["input"]][:1])
+    failing = (failing + sf)[:6 + nroute]
     failing = failing[:6 + nroute - min(3, len(wf))] + wf[:3]
     seen.update(f["kind"] for f in wf)
     for f in _ARR_FAILS:
@@ -3069,7 +3318,7 @@ def replay(ctx, data):
         print("REPRODUCED: " + fail["kind"] + ": " + fail["observed"] if fail else "not reproduced")
         return 1 if fail else 0
     if inp and "ops" in inp:
-        fails = session_failures(inp, run_session(inp))
+        fails = session_after(inp)
         print("REPRODUCED: " + fails[0]["kind"] + ": " + fails[0]["observed"] if fails else "not reproduced")
         return 1 if fails else 0
     if not inp or "field" not in inp:
